@@ -107,6 +107,10 @@ READERS = ["numbers", "activities", "masses", "moles", "fractions", "half_lives"
            "time_series", "to_csv", "len", "repr", "operators", "plot"]
 
 
+class ArgumentChanged(Exception):
+    pass
+
+
 def do_reader(rd, inv, kind, r, tmpdir, hp):
     present = list(inv.contents)
     if kind == "numbers":
@@ -136,6 +140,15 @@ def do_reader(rd, inv, kind, r, tmpdir, hp):
     if kind == "time_series":
         if hp and len(present) > 3:
             return None
+        if r.random() < 0.5:
+            # an explicit (unsorted) array of times is an ARGUMENT: it must come back bit-for-bit unchanged
+            import numpy as _np
+            arr = _np.array(r.choice([[10.0, 5.0, 0.0], [3.0, 1.0, 2.0], [0.5, 7.25, 7.0]]))
+            before = arr.tobytes()
+            res = (inv.decay_time_series if r.random() < 0.5 else inv.decay_time_series_pandas)(arr, "d", decay_units=r.choice(["Bq", "num"]))
+            if arr.tobytes() != before:
+                raise ArgumentChanged(f"decay_time_series changed the caller's time array to {arr.tolist()}")
+            return res
         return inv.decay_time_series(100.0, "d", npoints=3, decay_units=r.choice(["Bq", "num", "g", "mass_frac"]))
     if kind == "to_csv":
         inv.to_csv(os.path.join(tmpdir, "o.csv"), r.choice(["Bq", "num", "g"]) if all(
@@ -163,6 +176,8 @@ def raises_same_on_fresh(rd, m, inv, dsi, kind, r, state, tmpdir, hp, exc) -> bo
     """A reader that raises is not by itself a violation of this property (e.g. plotting an emptied inventory raises
     ValueError in matplotlib/numpy): it is one only if the same call on a fresh inventory with the same contents behaves
     differently (history dependence).  The caller still compares every fingerprint afterwards."""
+    if isinstance(exc, ArgumentChanged):
+        return False                   # raised by the harness itself: an argument was modified
     after = r.getstate()
     try:
         r.setstate(state)
